@@ -1910,65 +1910,68 @@ class Step(BasicStatement, Replayable):
         if capture:
             runner.start_capture()
 
-        skip_step_untested = False
-        runner.run_hook("before_step", runner.context, self)
-        if self.hook_failed:
-            skip_step_untested = True
+        try:
+            skip_step_untested = False
+            runner.run_hook("before_step", runner.context, self)
+            if self.hook_failed:
+                skip_step_untested = True
 
-        start_time = time.time()
-        if not skip_step_untested:
-            try:
-                # -- ENSURE:
-                #  * runner.context.text/.table attributes are reset (#66).
-                #  * Even EMPTY multiline text is available in context.
-                runner.context.text = self.text
-                runner.context.table = self.table
-                match.run(runner.context)
-                if self.status == Status.untested:
-                    # -- NOTE: Executed step may have skipped scenario and itself.
-                    self.status = Status.passed
-            except AssertionError as e:
-                self.status = Status.failed
-                self.store_exception_context(e)
-                if e.args:
-                    message = _text(e)
-                    error = u"Assertion Failed: " + message
-                else:
-                    # no assertion text; format the exception
+            start_time = time.time()
+            if not skip_step_untested:
+                try:
+                    # -- ENSURE:
+                    #  * runner.context.text/.table attributes are reset (#66).
+                    #  * Even EMPTY multiline text is available in context.
+                    runner.context.text = self.text
+                    runner.context.table = self.table
+                    match.run(runner.context)
+                    if self.status == Status.untested:
+                        # -- NOTE: Executed step may have skipped scenario and itself.
+                        self.status = Status.passed
+                except AssertionError as e:
+                    self.status = Status.failed
+                    self.store_exception_context(e)
+                    if e.args:
+                        message = _text(e)
+                        error = u"Assertion Failed: " + message
+                    else:
+                        # no assertion text; format the exception
+                        error = _text(traceback.format_exc())
+                except StepNotImplementedError as e:
+                    # -- CASE: StepNotImplementedError/PendingStepError
+                    self.status = Status.pending
+                    if dry_run_mode:
+                        self.status = Status.untested_pending
+                    elif wip_mode:
+                        self.status = Status.pending_warn
+                    self.store_exception_context(e)
+                    if e.args:
+                        message = _text(e)
+                        error = u"%s: %s" % (e.__class__.__name__, message)
+                    else:
+                        # no assertion text; format the exception
+                        error = _text(traceback.format_exc())
+                except KeyboardInterrupt as e:
+                    runner.abort(reason="KeyboardInterrupt")
+                    error = u"ABORTED: By user (KeyboardInterrupt)."
+                    self.status = Status.error
+                    self.store_exception_context(e)
+                except Exception as e:      # pylint: disable=broad-except
+                    self.status = Status.error
                     error = _text(traceback.format_exc())
-            except StepNotImplementedError as e:
-                # -- CASE: StepNotImplementedError/PendingStepError
-                self.status = Status.pending
-                if dry_run_mode:
-                    self.status = Status.untested_pending
-                elif wip_mode:
-                    self.status = Status.pending_warn
-                self.store_exception_context(e)
-                if e.args:
-                    message = _text(e)
-                    error = u"%s: %s" % (e.__class__.__name__, message)
-                else:
-                    # no assertion text; format the exception
-                    error = _text(traceback.format_exc())
-            except KeyboardInterrupt as e:
-                runner.abort(reason="KeyboardInterrupt")
-                error = u"ABORTED: By user (KeyboardInterrupt)."
-                self.status = Status.error
-                self.store_exception_context(e)
-            except Exception as e:      # pylint: disable=broad-except
-                self.status = Status.error
-                error = _text(traceback.format_exc())
-                self.store_exception_context(e)
+                    self.store_exception_context(e)
 
-        now = time.time
-        self.duration = now() - start_time
-        runner.run_hook("after_step", runner.context, self)
-        if self.hook_failed:
-            # -- MAYBE BETTER: self.status = Status.error
-            self.status = Status.hook_error
-
-        if capture:
-            runner.stop_capture()
+            now = time.time
+            self.duration = now() - start_time
+            runner.run_hook("after_step", runner.context, self)
+            if self.hook_failed:
+                # -- MAYBE BETTER: self.status = Status.error
+                self.status = Status.hook_error
+        finally:
+            # -- ENSURE: Real stdout/stderr are restored, even if a hook or
+            #    the step raises a BaseException (like: KeyboardInterrupt).
+            if capture:
+                runner.stop_capture()
 
         # flesh out the failure with details
         store_captured_always = False   # PREPARED
